@@ -216,6 +216,37 @@ Proof.
   destruct H as [-> [Hpend [H1 H2]]]. rewrite Hr in Hpend.
   cbn [m_loop]. unfold m_step. rewrite (w_queue_next_nil w1 Hpend). rewrite app_nil_r. auto.
 Qed.
+
+(* the no-replay requirement on the source: after a resume whose restored level ran to its
+   end (omen_exit false) the configuration no longer holds a guess number *)
+Theorem source_no_replay : forall l fuel w,
+  restored = [] -> (forall n, sw_cfg_omen w = Some n -> sw_om w <> None) ->
+  let w' := snd (src_run (S fuel) true l w) in
+  sw_omen_exit w' = false -> sw_cfg_omen w' = None.
+Proof.
+  intros l fuel w Hr H. pose proof (source_resume_is_sess_restore l fuel w Hr H) as R.
+  destruct (src_run (S fuel) true l w) as [[r o] w']. cbn [snd].
+  destruct R as [_ [R _]]. intros E. rewrite R, E. unfold Omen.sess_restore, sv_of. cbn.
+  destruct (sw_cfg_omen w); reflexivity.
+Qed.
+
+(* one iteration of the translated main loop (a resumed session without a saved OMEN
+   position, fuel 1: the prologue only restores the queue and starts the thread) writes the
+   save file exactly when Omen.loop_saves says so: the pop returned a pre-terminal AND the
+   quit flag is set at that step.  A quit seen when the queue is empty is never saved (R18) *)
+Theorem source_iteration_saves_is_loop_saves : forall l w, sw_cfg_omen w = None ->
+  length (sw_saves (snd (src_run 1 true l w))) =
+  length (sw_saves w) +
+  (if Omen.loop_saves (match restored with [] => false | _ :: _ => true end)
+                      (should_exit (h_steps (sw_h w) (sch (sw_t w)))) then 1 else 0).
+Proof.
+  intros l w Hc. rewrite src_run_is_w_run. unfold w_run, m_run, m_prologue, w_cfg_has_omen_number.
+  cbn [w_start_keypress_thread w_restore_queue upd_started upd_queue sw_cfg_omen]. rewrite Hc.
+  match goal with |- context [m_loop ?a ?b ?c ?d ?e ?f ?g ?h ?i 1 l ?w1] =>
+    pose proof (w_step_saves_is_loop_saves sch l w1) as H; cbn [m_loop];
+    destruct (m_step a b c d e f g h i l w1) as [[[r|l'] o] w'] end;
+    cbn [snd app] in *; rewrite H; destruct restored; reflexivity.
+Qed.
 End SourceWorld.
 
 (* ---- C09: --limit, in every quiet world ---- *)
@@ -264,3 +295,37 @@ Proof.
   cbn [zlimit option_map] in H. cbv zeta. rewrite H. cbn [fst snd]. now apply C09_limit_exact.
 Qed.
 End SourceQuiet.
+
+(* ---- the hypotheses are satisfiable and the translated functions compute ---- *)
+
+(* a quiet world: the queue is a list of groups (a pre-terminal is its list of guesses),
+   nobody asks to quit, saving does nothing *)
+Definition qw_next (w : list (list nat)) : option (list nat) * list (list nat) := (hd_error w, tl w).
+Definition qw_create (gs : list nat) (_ : bool) (l : option Z) (w : list (list nat)) : sres Z * list nat * list (list nat) :=
+  (SOk (len (limit_take l gs)), limit_take l gs, w).
+Definition qw_run (fuel : nat) (load : bool) (limit : option Z) (w : list (list nat)) :=
+  py_cracking_run (fun w => w) (fun w => w) qw_next (fun w => w) (fun gs : list nat => gs) qw_create
+                  (fun _ w => (SOk 0%Z, [], w)) (fun w => (false, w)) (fun _ => false) (fun _ => 0%Z) (fun _ => false)
+                  (fun _ => 0%Z) (fun w => w) (fun _ w => w) (fun w => (SOk tt, w)) (fun w => w) fuel load limit w.
+
+Lemma list_world_quiet :
+  quiet_world qw_next (fun w => w) qw_create (fun w : list (list nat) => (false, w)) (fun _ w => w)
+              (fun w => (SOk tt, w)) (fun w => w) (fun w => w) (fun gs : list nat => gs).
+Proof. unfold quiet_world. repeat split; auto. Qed.
+
+Example list_world_limit_example :
+  qw_run 6 false (Some 4%Z) [[1;2]; []; []; [3;4;5]; [6]] = (SOk tt, [1;2;3;4], [[6]]) /\
+  qw_run 6 false None [[1;2]; []; []; [3;4;5]; [6]] = (SOk tt, [1;2;3;4;5;6], []).
+Proof. split; vm_compute; reflexivity. Qed.
+
+(* the world of Session.v: a plain pre-terminal, a Markov level, a plain one; 'q' arrives
+   while the second guess of the Markov level is being written (step 5) *)
+Example session_world_example :
+  let pts := [plainp 0 [10; 11]; markovp 1 [20; 21; 22]; plainp 2 [30]] in
+  let sch := at_step 5 [EvQuitFlag] quiet in
+  w_outcome (src_run sch pts [] (fun _ _ => []) 4 false None (w_init None None)) =
+    {| out := [10; 11; 20; 21]; saved_at := Some 2; omen_saved := Some (1, 2); finished := false |} /\
+  run_session true sch pts =
+    {| out := [10; 11; 20; 21]; saved_at := Some 2; omen_saved := Some (1, 2); finished := false |} /\
+  sw_saves (snd (src_run sch pts [] (fun _ _ => []) 4 false None (w_init None None))) = [(None, None); (Some 2, Some 2)].
+Proof. cbv zeta. repeat split; vm_compute; reflexivity. Qed.
